@@ -58,6 +58,9 @@ func intsTok(xs []int64) string {
 
 func suiteV19(c *vctx) {
 	r := c.r
+	// the agent's own environment already carries the variable the hooks are given (an exported shell
+	// variable, an env file shared with the sync scripts): the hooks must see the store's directory
+	os.Setenv("WHAWTY_AUTH_STORE", "/some/other/store-from-the-agents-environment")
 	// (4) a hanging hook is killed after its time limit and never delays the agent: runs beside
 	// the rest of the suite (it only sleeps), in one shard
 	var hang chan bool
